@@ -92,6 +92,12 @@ def classify(V, M):
             out.update(kind='TIME-VALUE-ONLY'); return out
         if fn.startswith('lookup_encode_') and V[2] == (val,):
             out.update(kind='LOOKUP-VALUE-ONLY', enum=fn[len('lookup_encode_'):]); return out
+    if V[0] == 'bool' and V[1] == 'or' and len(V[2]) == 2 and V[2][0] == raw:
+        # `field.raw_value or <from the value>` is `raw_value if raw_value else ...`: the same truthiness test
+        sub = classify(('ite', ('cmp', 'is not', raw, NONE), raw, V[2][1]), M)
+        if sub.get('kind') not in ('?',):
+            sub['raw_truthy'] = True
+        return sub
     if V[0] == 'ite' and (V[1] == raw or V[1] == ('call', ('name', 'bool'), (raw,), ())):
         # `if field.raw_value:` -- the raw value is preferred only when it is truthy: a raw value of 0 (a legal tick count, date or code) takes
         # the path meant for "no raw value".  Read like the `is not None` form and marked: the rules report it with raw value 0 as the witness.
